@@ -8,6 +8,7 @@ MODULES = [
     'contracts.datacls',
     'contracts.parallel',
     'contracts.cache',
+    'contracts.chain',
 ]
 
 
